@@ -235,6 +235,20 @@ Proof.
   rewrite andb_true_iff, tid_eqb_eq, Nat.eqb_eq. split; [intros [-> ->]; reflexivity|intros [= -> ->]; auto].
 Qed.
 
+(* hold bookkeeping does not touch anything the invariant talks about *)
+Lemma Inv_with_hold c s l hp : Inv c s -> Inv c (with_hold s l hp).
+Proof. intros [I1 I2 I3 I4 I5 I6]. constructor; auto. Qed.
+Lemma Inv_add_hold c s t : Inv c s -> Inv c (add_hold s t).
+Proof. intros I. unfold add_hold. destruct (mem tid_eqb t (to_hold s)); [exact I|now apply Inv_with_hold]. Qed.
+Lemma Inv_fold_add_hold c ids : forall s, Inv c s -> Inv c (fold_left add_hold ids s).
+Proof. induction ids as [|t r IH]; intros s I; cbn; [exact I|]. apply IH. now apply Inv_add_hold. Qed.
+Lemma add_hold_fields s t :
+  pool (add_hold s t) = pool s /\ limbo (add_hold s t) = limbo s /\ done (add_hold s t) = done s /\
+  abs_done (add_hold s t) = abs_done s /\ subs (add_hold s t) = subs s.
+Proof. unfold add_hold. destruct (mem tid_eqb t (to_hold s)); cbn; repeat split. Qed.
+Lemma lookup_add_hold s t t' : lookup (add_hold s t) t' = lookup s t'.
+Proof. unfold lookup. destruct (add_hold_fields s t) as [-> [-> _]]. reflexivity. Qed.
+
 Lemma NoDup_snoc {A} (l : list A) x : NoDup l -> ~ In x l -> NoDup (l ++ [x]).
 Proof.
   intros Hl Hx. induction l as [|y r IH]; cbn; [repeat constructor; auto|].
@@ -251,22 +265,33 @@ Proof.
   destruct (negb (Z.leb (c_icp c) (fst t) && Z.leb (fst t) (c_fcp c))) eqn:Eb; [discriminate|].
   destruct (existsb (fun p => tid_eqb (p_id p) t) (pool s)) eqn:Ep; [discriminate|].
   destruct (negb (subset_keys sat0 (expected_sat0 s i))) eqn:Es; [discriminate|].
-  injection H as <-. apply negb_false_iff in Eb, Es. apply andb_true_iff in Eb.
+  destruct (negb (Bool.eqb held (hold_expected s t))); [discriminate|].
+  injection H as <-. apply negb_false_iff in Eb, Es.
+  assert (Hs1 : exists s1, (if held then add_hold s t else s) = s1 /\ Inv c s1 /\ pool s1 = pool s /\
+                limbo s1 = limbo s /\ done s1 = done s /\ abs_done s1 = abs_done s /\ subs s1 = subs s).
+  { destruct held.
+    - exists (add_hold s t). destruct (add_hold_fields s t) as [? [? [? [? ?]]]].
+      split; [reflexivity|]. split; [now apply Inv_add_hold|]. repeat split; assumption.
+    - exists s. split; [reflexivity|]. split; [exact I|]. repeat split; reflexivity. }
+  destruct Hs1 as [s1 [-> [I' [Hp1 [Hl1 [Hd1 [Ha1 Hsub1]]]]]]]. clear I.
+  assert (Eexp : forall k, In k (expected_sat0 s i) -> In k (abs_done s1)).
+  { intros k Hk. rewrite Ha1. eapply expected_sat0_abs; eauto. }
+  rename I' into I. apply andb_true_iff in Eb.
   destruct Eb as [Eb1 Eb2]. apply Z.leb_le in Eb1, Eb2.
-  destruct I as [I1 I2 I3 I4 I5 I6].
+  destruct I as [I1 I2 I3 I4 I5 I6]. unfold tracked in *. rewrite Hp1, Hl1 in *.
   constructor; unfold tracked; cbn.
-  - exact I1.
-  - intros p [Hp|[<-|Hp]].
+  - rewrite Hp1. exact I1.
+  - rewrite Hp1. intros p [Hp|[<-|Hp]].
     + apply I2. now left.
     + cbn. split; [eauto|lia].
     + apply I2. right. eapply In_remove_task; eauto.
-  - intros p k [Hp|[<-|Hp]] Hk.
+  - rewrite Hp1. intros p k [Hp|[<-|Hp]] Hk.
     + eapply I3; [left; eauto|auto].
-    + cbn in Hk. apply I4. eapply expected_sat0_abs. eapply subset_keys_In; eauto.
+    + cbn in Hk. apply I4. apply Eexp. eapply subset_keys_In; eauto.
     + eapply I3; [right; eapply In_remove_task; eauto|auto].
   - exact I4.
-  - intros p i0 [Hp|[<-|Hp]] Hi Hn.
-    + eapply I5; eauto. now left.
+  - rewrite Hp1. intros p i0 [Hp|[<-|Hp]] Hi Hn.
+    + eapply I5; eauto.
     + cbn in Hn. discriminate.
     + eapply I5; eauto. right. eapply In_remove_task; eauto.
   - exact I6.
@@ -375,7 +400,16 @@ Proof.
   destruct (negb r && p_runahead p && negb (within_limit s p) && negb (p_manual p)) eqn:E3; [discriminate|].
   destruct (status_eqb st Preparing && negb (status_eqb (p_status p) Preparing) && p_held p && negb (p_manual p)) eqn:E4;
     [discriminate|].
+  destruct (h && negb (p_held p) && negb (hold_expected s t)); [discriminate|].
+  destruct (negb h && p_held p && mem tid_eqb t (to_hold s)); [discriminate|].
   injection H as <-.
+  assert (Hs1 : Inv c (if h && negb (p_held p) then add_hold s t else s) /\
+                lookup (if h && negb (p_held p) then add_hold s t else s) t = Some (p, inp)).
+  { destruct (h && negb (p_held p)); [|split; assumption].
+    split; [now apply Inv_add_hold|rewrite lookup_add_hold; exact El]. }
+  destruct Hs1 as [I' El']. clear I El E3.
+  generalize dependent (if h && negb (p_held p) then add_hold s t else s). clear s.
+  intros s I El.
   pose proof (lookup_spec _ _ _ _ El) as [Hpid Hin].
   assert (Htp : tracked s p) by (destruct inp; [now left|now right]).
   eapply Inv_store; eauto.
@@ -516,10 +550,12 @@ Lemma tick_counters_fields c s p :
   p_manual (tick_counters c s p) = p_manual p /\ needs_ok (tick_counters c s p) = needs_ok p.
 Proof. unfold tick_counters. repeat split. Qed.
 
-Lemma Inv_tick c s snap s' : Inv c s -> step c s (ETickEnd snap) = Ok s' -> Inv c s'.
+Lemma Inv_tick c s snap hl hp s' : Inv c s -> step c s (ETickEnd snap hl hp) = Ok s' -> Inv c s'.
 Proof.
   intros I H. cbn [step] in H.
   destruct (negb (Nat.eqb (length snap) (length (pool s)))); [discriminate|].
+  destruct (negb (same_tids hl (to_hold s) && option_eqb Z.eqb hp (hold_pt s))); [discriminate|].
+  destruct (negb (forallb (fun p => Bool.eqb (p_held p) (mem tid_eqb (p_id p) (to_hold s))) (pool s))); [discriminate|].
   destruct (negb (forallb _ snap)) in H; [discriminate|].
   destruct (existsb _ _) in H; [discriminate|].
   destruct (existsb _ _) in H; [discriminate|].
@@ -558,6 +594,11 @@ Proof.
     destruct (option_eqb Z.eqb l (spec_limit c s)); [injection H as <-; now apply Inv_limit|discriminate].
   - eapply Inv_merge; eauto.
   - eapply Inv_abs; eauto.
+  - cbn in H. injection H as <-. now apply Inv_fold_add_hold.
+  - cbn in H. injection H as <-. now apply Inv_with_hold.
+  - cbn in H. injection H as <-. now apply Inv_with_hold.
+  - cbn in H. injection H as <-. now apply Inv_with_hold.
+  - cbn in H. injection H as <-. now apply Inv_with_hold.
   - eapply Inv_tick; eauto.
   - cbn in H. repeat (destruct (existsb _ _) in H; [discriminate|]). injection H as <-. exact I.
 Qed.
